@@ -18,6 +18,7 @@ type segmentTimelineGenerator struct {
 	dstDir         string
 	counters       *seqCounters
 	latestSeqNr    uint32 // Used in segment times generation
+	oldestSeqNr    uint32 // First number in the latest generated segment times
 	windowSize     uint32
 	_nrTracks      uint32
 	_started       bool
@@ -53,6 +54,14 @@ func (s *segmentTimelineGenerator) addSegmentData(log *slog.Logger, item recSegD
 		// Try generate segmentTimeline when all tracks have segments.
 		log.Debug("Starting segmentTimeline generation", "nrTracks", len(s.segDataBuffers))
 		newSeqNr = s.counters.newFullCounter(s._nrTracks, s.latestSeqNr)
+		if newSeqNr == 0 && s.latestSeqNr != 0 {
+			// No new full counter, but the window may have moved so that the oldest numbers in the MPD
+			// are outside and their segments will be removed. Then the MPD must be regenerated as well.
+			firstNr, lastNr := s.counters.fullRange(s._nrTracks)
+			if lastNr == s.latestSeqNr && firstNr != s.oldestSeqNr {
+				newSeqNr = lastNr
+			}
+		}
 		return newSeqNr, nil
 	}
 	return 0, nil
@@ -92,11 +101,12 @@ func (s *segmentTimelineGenerator) start(newWindowSize uint32, isShifted bool) {
 // generateSegmentTimelineNrMPD generates the SegmentTimelineNr MPD for the channel and writes it to disk.
 // The times are taken from the longest ending consecutive range of sequence numbers of all segments.
 // Latest number is >= newLatestSeqNr depending on the highest number in the buffers.
+// newLatestSeqNr is equal to s.latestSeqNr when only the start of the range has changed.
 // s.latestSeqNr is updated to the highest number used in the segment times.
 func (sg *segmentTimelineGenerator) generateSegmentTimelineNrMPD(log *slog.Logger, newLatestSeqNr uint32, ch *channel, nowMS int64) error {
 	firstNr, lastNr := sg.counters.fullRange(sg._nrTracks)
-	if newLatestSeqNr <= sg.latestSeqNr {
-		return fmt.Errorf("newLatestSeqNr %d is not bigger than latestSeqNr %d", newLatestSeqNr, sg.latestSeqNr)
+	if newLatestSeqNr < sg.latestSeqNr {
+		return fmt.Errorf("newLatestSeqNr %d is smaller than latestSeqNr %d", newLatestSeqNr, sg.latestSeqNr)
 	}
 	if newLatestSeqNr > lastNr {
 		return fmt.Errorf("newLatestSeqNr %d is bigger than highest buffer number %d", newLatestSeqNr, lastNr)
@@ -112,6 +122,7 @@ func (sg *segmentTimelineGenerator) generateSegmentTimelineNrMPD(log *slog.Logge
 		}
 	}
 	sg.latestSeqNr = lastNr
+	sg.oldestSeqNr = firstNr
 	tmpFile := filepath.Join(ch.dir, timelineNrMPD+".tmp")
 	ofh, err := os.Create(tmpFile)
 	if err != nil {
